@@ -1,4 +1,5 @@
 import Driver.Paych
+import Driver.Partition
 import Driver.Power
 
 /-- generic stdin/stdout loop over a pure handler -/
@@ -15,6 +16,7 @@ def main (args : List String) : IO UInt32 := do
   let stdin ← IO.getStdin
   let stdout ← IO.getStdout
   match args with
+  | ["partition"] => loop stdin stdout Driver.Partition.handle default; return 0
   | ["paych"] => loop stdin stdout Driver.Paych.handle (BA.Paych.init 0 0); return 0
-  | ["power"] => loop stdin stdout Driver.Power.handle BA.Power.init; return 0
+  | ["power"] => loop stdin stdout Driver.Power.handle Driver.Power.dinit; return 0
   | _ => IO.eprintln "usage: driver <model>"; return 2
